@@ -64,8 +64,9 @@ def _hwval(v):
 
 
 def _arg(v):
-    """a value handed to a hardware function: it has been converted by the datatype, i.e. it is an int"""
-    return v if type(v) is int else repr(v)  # pylint: disable=unidiomatic-typecheck
+    """alpha for values (handed to a hardware function, cached, sent): the datatype makes them ints; anything else
+    (a float that was not converted, a string that got through) is shown to TLC as -1"""
+    return v if type(v) is int and 0 <= v < 1000 else -1  # pylint: disable=unidiomatic-typecheck
 
 
 # ------------------------------------------------------------------ alpha: error labels
@@ -354,7 +355,7 @@ class World:
     # -- projection
     def _core(self, name):
         m = self.mods[name]
-        return {'cache': {k: {'v': m.parameters[k].value, 'err': _elabel(m.parameters[k].readerror)} for k in PARAMS},
+        return {'cache': {k: {'v': _arg(m.parameters[k].value), 'err': _elabel(m.parameters[k].readerror)} for k in PARAMS},
                 'hw': dict(m._hw), 'wd': sorted(m.writeDict)}
 
     def _updates(self):
@@ -368,7 +369,7 @@ class World:
             if mod not in out or k not in PARAMS:
                 continue
             if msg[0] == 'update':
-                u = {'k': k, 'v': msg[2][0], 'e': 'none'}
+                u = {'k': k, 'v': _arg(msg[2][0]), 'e': 'none'}
             else:
                 u = {'k': k, 'v': 0, 'e': _wlabel(msg[2][0], msg[2][1])}
             if not out[mod][k] or out[mod][k][-1] != u:
@@ -392,7 +393,7 @@ class World:
     # -- poll threads
     def _wait_parked(self, name):
         trg = self.mods[name].triggerPoll
-        if not trg.parked.acquire(timeout=30):
+        if not trg.parked.acquire(timeout=120):
             self.dead = f'poll thread of {name} did not come back'
             raise MachineryError(self.dead)
 
@@ -428,7 +429,7 @@ class World:
                 try:
                     # a driver may hand over any number: the wrapper converts it before the hardware function sees it
                     v = getattr(m, 'read_' + k)() if act == 'read' else getattr(m, 'write_' + k)(float(a['val']))
-                    res = {'ok': True, 'v': v, 'e': 'none'}
+                    res = {'ok': True, 'v': _arg(v), 'e': 'none'}
                 except Exception as e:  # pylint: disable=broad-except
                     res = {'ok': False, 'v': 0, 'e': _elabel(e)}
             else:
@@ -437,7 +438,7 @@ class World:
                 if rep[0].startswith('error_'):
                     res = {'ok': False, 'v': 0, 'e': _wlabel(rep[2][0], rep[2][1])}
                 else:
-                    res = {'ok': True, 'v': rep[2][0], 'e': 'none'}
+                    res = {'ok': True, 'v': _arg(rep[2][0]), 'e': 'none'}
         elif act == 'poll':
             self.poll_round(name)
         elif act == 'assign':
